@@ -75,7 +75,7 @@ func VerifC14_withdraw() {
 	} else {
 		id0 = 0
 	}
-	nw := 1 + ndLen("extraWithdrawals", 1)
+	nw := 1 + ndLen("extraWithdrawals", 1+ndTier())
 	prevID := id0
 	spent := math.ZeroInt()
 	var firstQuery []byte
